@@ -496,7 +496,10 @@ def get_fn_arity(f):
     NOTE: TODO: it maybe easier / better to do this at parse time vs late.
     """
     if isinstance(f, KGFn) and isinstance(f.a, KGSym) and not in_map(f.a, reserved_fn_symbols):
-       return sum(1 for x in set(f.args) if in_map(x, reserved_fn_symbols) or (x is None))
+       # only holes and parameter symbols count; other arguments (array literals, conditionals)
+       # need not be hashable
+       args = f.args if isinstance(f.args, list) else [f.args]
+       return len(set(x for x in args if x is None or (isinstance(x, KGSym) and x in reserved_fn_symbols)))
     def _e(f, level=0):
         if isinstance(f, KGFn):
             x = _e(f.a, level=1)
